@@ -80,6 +80,10 @@ def _lib(ctx, name, p):
         return lambda x: 1 / (x - a)
     if name == 'kwf':          # accepts kwargs (memoize)
         return lambda x, **kw: ctx.exp(x) + kw.get('c', 0)
+    if name == 'matf':         # returns a matrix (memoize: the cached object must not be the one handed out)
+        return lambda x: ctx.matrix([[ctx.exp(x), a], [b, ctx.sqrt(x + a)]])
+    if name == 'listf':        # returns a list
+        return lambda x: [ctx.exp(x), ctx.ln(x + a)]
     raise KeyError('unknown callback ' + name)
 
 CALLBACK_NAMES = ['expneg', 'poly', 'lorentz', 'cosexp', 'sinx', 'invpow', 'altinv', 'geom',
